@@ -236,12 +236,24 @@ def _run_test_shard(modname: str, test_index: int, shard: int, n: int, tier: str
                      report_multiple_bugs=False)(given(strat)(body)))
         seeded()
         # shrink each new bucket of this shard (bounded)
-        for key in list(stats.buckets)[:3]:
-            b = stats.buckets[key]
-            small = _shrink(test, strat, b['sub'], known_preds, base_seed * 1000 + shard * 37 + test_index, n,
-                            300 if tier == 'quick' else 3000)
-            if small is not None and len(canon(small[0])) <= len(canon(b['case'])):
-                b['case'], b['detail'] = small
+    # shrink each new bucket of this shard from its own failing case (bounded by calls and time: shrinking only
+    # makes the replay smaller, it never changes the verdict)
+    from . import shrink as _sh
+    for key in list(stats.buckets)[:2]:
+        b = stats.buckets[key]
+
+        def still(c, sub=b['sub']):
+            rr = R()
+            test.check(c, rr)
+            return any(s_ == sub and match_known(known_preds, c, s_, d_) is None for s_, d_ in rr.failures)
+
+        small = _sh.shrink(b['case'], still, 150 if tier == 'quick' else 1500, 20.0 if tier == 'quick' else 180.0)
+        if len(canon(small)) < len(canon(b['case'])):
+            rr = R()
+            test.check(small, rr)
+            det = [d_ for s_, d_ in rr.failures if s_ == b['sub']]
+            if det:
+                b['case'], b['detail'] = small, det[0]
     return test.name, shard, stats, time.time() - t0
 
 
